@@ -30,7 +30,7 @@ def check(run, tier, seed, replay=None, only=None):
     mcs = [lambda n=n: core.tlc("MC_Order.tla", "MC_Order_%d.cfg" % n, workers=2, timeout=900) for n in ((3, 4, 5) if quick else (3, 4, 5, 6))]
     stages = [("perms", ["--mode", "perms", "--nmax", 5 if quick else 6])]
     for s in range(4 if quick else 12):
-        stages.append(("random-%d" % s, ["--mode", "random", "--budget", 40 if quick else 120, "--maxlen", 300 if quick else 2000,
+        stages.append(("random-%d" % s, ["--mode", "random", "--budget", 40 if quick else 120, "--maxlen", 2000,
                                          "--seed", seed * 100 + s]))
     sstages = [("median-%d" % s, ["--mode", "exact", "--k", 8 if quick else 11, "--sets", 2, "--proc", "median",
                                   "--seed", seed * 100 + 50 + s]) for s in range(2 if quick else 4)]
